@@ -156,6 +156,9 @@ def _ga_rules(rep, prog):
 
 
 def _window_rules(rep, prog):
+    from ..rules import intdiv
+    gb = [k for k, f in prog.functions.items() if f['name'] == 'genbbsub']
+    intdiv.check(rep, prog, gb, 'GRID.intdiv')
     from ..rules import window
     window.forward(rep, prog, 'WINDOW')
     ini = prog.fn('bxdecay0::decay0_generator::initialize')
